@@ -1032,6 +1032,26 @@ def run_sim_case(case, ex, pool, pristine=None):
     return out
 
 
+def tiny_angle_repetitions(seed, n):
+    """n small rotation angles (log-uniform in [1e-9, 4e-4], both signs): after the same numpy seed the same request on the same gate
+    set gives the same matrix, bit for bit.  Returns (requests, failure | None)."""
+    import random
+    from quantum_gates._gates.gates import standard_gates
+    rng = random.Random(seed)
+    for i in range(n):
+        th = rng.choice([-1, 1]) * 10.0 ** rng.uniform(-9, -3.4)
+        args = (th, rng.uniform(-3, 3), 1e-3, 1e-4, 5e-5)
+        out = []
+        for _ in range(2):
+            np.random.seed(11)
+            with quiet():
+                out.append(np.array(standard_gates.single_qubit_gate(*args)))
+        if out[0].tobytes() != out[1].tobytes():
+            return 2 * (i + 1), (f"standard_gates.single_qubit_gate{args}: two requests after numpy.random.seed(11) differ by "
+                                 f"{float(np.abs(out[0] - out[1]).max()):.3e} - the sample does not depend on numpy's global generator only")
+    return 2 * n, None
+
+
 def short_lived_gate_sets(n):
     """returns (gate sets built, failure | None)"""
     import gc as _gc
@@ -1300,6 +1320,12 @@ def main(ctx):
     if sl[1]:
         violations.append(({"kind": "gate-set-lifetime"}, {"level": "lifetime", "failure": sl[1]}, sl[1]))
 
+    ta = tiny_angle_repetitions(ctx.seed, 1500 if ctx.thorough else 400)
+    ctx.count(ta[0])
+    cov["tiny_angle_repetitions"] = ta[0]
+    if ta[1]:
+        violations.append(({"kind": "not-reproducible-after-seed"}, {"level": "tiny-angles", "seed": ctx.seed, "failure": ta[1]}, ta[1]))
+
     cov["pristine_process_questions"] = pristine.n
     pristine.close()
 
@@ -1452,6 +1478,10 @@ def replay(ctx, path):
     rp = json.load(open(path))["replay"]
     level = rp.get("level")
     pool = NanPool()
+    if level == "tiny-angles":
+        n, bad = tiny_angle_repetitions(rp.get("seed", 0), 1500)
+        print("tiny angles, two requests after the same seed:", bad or "oracle holds")
+        return 1 if bad else 0
     if level == "lifetime":
         n, bad = short_lived_gate_sets(60)
         print("gate sets that come and go:", bad or "oracle holds")
